@@ -44,8 +44,10 @@ def gen_prov(D, max_tasks=8):
     F = G.feats(publish=False, commands=False, expr_failures=False,
                 cycles=False, partial_joins=False, defaults=False,
                 guards=False, state_commands=False)
-    shape = D.int(0, 9)
-    if shape < 4:
+    shape = D.int(0, 10)
+    if shape == 10:
+        prog, outc = gen_loopside(D, G)
+    elif shape < 4:
         prog, outc = gen_diamond(D, G)
     elif shape < 6:
         prog, outc = G.gen_joinshape(D, F)
@@ -59,7 +61,7 @@ def gen_prov(D, max_tasks=8):
     # the workflow input default or to a workflow variable (never both for
     # one name: their mutual precedence is not documented)
     prog['fallback'] = {}
-    for v in ('x', 'y'):
+    for v in ('x', 'y') if not prog.get('loopside') else ():
         r = D.int(0, 5)
         if r == 0:
             prog['input'][v] = 'in:%s' % v
@@ -89,6 +91,8 @@ def gen_prov(D, max_tasks=8):
                 '$h': "{{ _.get('h', 'none') }}"}}
         for clause in ('publish', 'publish-on-error'):
             pub = {}
+            if prog.get('loopside'):
+                continue
             if prog.get('diamond'):
                 pr = prog['pub_p'].get(nm, 0.0)
                 if clause == 'publish':
@@ -110,7 +114,8 @@ def gen_prov(D, max_tasks=8):
             if clause == 'publish-on-error' and not D.bool(0.4):
                 pub = {}
             t[clause] = pub
-    gen_tpublish(D, prog)
+    if not prog.get('loopside'):
+        gen_tpublish(D, prog)
     if lang == 'yaql':
         prog['output_raw'] = {
             'x': '<% $.get(x, none) %>', 'y': '<% $.get(y, none) %>',
@@ -186,6 +191,45 @@ def ref_published(t, state):
     return br, gl
 
 
+def gen_loopside(D, G):
+    """init -> step (publishes x = iteration counter) -> [side, check];
+    check loops back to step while x < K; side (a single-parent task forked
+    inside the cycle, optionally delayed) -> after.  Every instance of side /
+    after must see the x of the step instance that caused it, not the one of
+    a later iteration that completed meanwhile."""
+    prog = {'name': 'wf', 'type': 'direct', 'tasks': {}, 'order': [],
+            'input': {}, 'defaults': None, 'output': None,
+            'lang': 'yaql', 'loopside': True, 'has_cycle': True}
+    outc = {}
+
+    def add(nm):
+        prog['tasks'][nm] = G.new_task()
+        prog['tasks'][nm]['form'] = {'action': 'noop'}
+        prog['order'].append(nm)
+        outc[nm] = [['ok', 'a']]
+    for nm in ('init', 'step', 'side', 'check', 'after'):
+        add(nm)
+    K = D.int(2, 3)
+    t = prog['tasks']
+    t['init']['on-success'].append({'to': 'step', 'guard': None})
+    t['step']['publish'] = {'x': ['inc', 'x']}
+    t['step']['on-success'].append({'to': 'side', 'guard': None})
+    t['step']['on-success'].append({'to': 'check', 'guard': None})
+    t['check']['on-success'].append({'to': 'step', 'guard': ['lt', 'x', K]})
+    t['side']['on-success'].append({'to': 'after', 'guard': None})
+    r = D.int(0, 3)
+    if r == 0:
+        t['side']['wait-before'] = 1
+    elif r == 1:
+        t['side']['wait-after'] = 1
+    elif r == 2:
+        t['side']['retry'] = {'count': 1, 'delay': 1}
+        outc['side'] = [['seq', [['err', 'once'], ['ok', 'a']]]]
+    if D.bool(0.3):
+        t['side']['publish'] = {'y': 'tok:side:y'}
+    return prog, outc
+
+
 def gen_diamond(D, G):
     """root publishes; k parallel branches (chains of 1-2 tasks) some of
     which republish; a full join; a tail."""
@@ -254,12 +298,14 @@ def check_prov(case, stats=None):
         t['publish-on-error'] = {}
         t.pop('tpublish', None)
     bare.pop('output_raw', None)
-    m = wfsem.model_for(bare, {}, case['outcomes'])
-    try:
-        m.outcomes_set()
-    except wfsem.TooBig:
-        return []
-    if m.retrigger_possible:
+    m = None
+    if not prog.get('loopside'):       # (no joins there)
+        m = wfsem.model_for(bare, {}, case['outcomes'])
+        try:
+            m.outcomes_set()
+        except wfsem.TooBig:
+            return []
+    if m is not None and m.retrigger_possible:
         if stats:
             stats.counters['excluded_known_shape_join_retrigger'] += 1
         return []
